@@ -23,6 +23,7 @@ Suppressions:
         many parameters by framework design (dry command has 8 params for extra options)
 """
 
+import json
 import sys
 from pathlib import Path
 from typing import TYPE_CHECKING, Any, NoReturn
@@ -75,8 +76,10 @@ def _load_dry_config_file(orchestrator: "Orchestrator", config_file: str, verbos
         click.echo(f"Error: Config file not found: {config_file}", err=True)
         sys.exit(2)
 
+    # A *.json file is JSON, like for the other commands (YAML would accept or refuse different text)
+    is_json = config_path.suffix.lower() == ".json"
     with config_path.open("r", encoding="utf-8") as f:
-        loaded = yaml.safe_load(f)
+        loaded = json.load(f) if is_json else yaml.safe_load(f)
     if loaded is not None and not isinstance(loaded, dict):
         click.echo(f"Error: Config file must contain a mapping: {config_file}", err=True)
         sys.exit(2)
